@@ -27,7 +27,7 @@
   * `parseHeaders_shift` (loop over lines: stored headers, count, type flags, first-of-type table);
   * `parseSIPMsg_shift` (+ `_exact`, `_ok`, `_init`, `_resume`) through `smParseFLine` (first line, every legitimate
     object), `smMsgHeaders`, `smMsgBody` (all Content-Length / flag cases), `smMsgErr`;
-  * `pipeline_second_message`, `pipeline_second_message_ok` (namespace-free, for C06).
+  * `pipeline_second_message`, `pipeline_second_message_ok`, `pipeline_nth_message` (namespace-free, for C06).
   FORM OF THE STATEMENTS. The call on `pre ++ t` at `k + o` with the moved objects returns the returned offset + k, the
   same verdict and the moved objects: EXACTLY after OK / MoreBytes / Empty (ParseHdrLine, ParseHeaders) resp. whenever the
   call does not end in the error state (ParseSIPMsg), and after an error verdict up to the saved restart offset `soffs`
@@ -46,7 +46,8 @@
   bounds of FieldsLo are extended to MoreBytes exits: `smCi_more`, `smCl_more`, `smClen_more`, `smCs_more`, `smCs_posMore`.
   NOT proved here: the statement for message objects that have already terminated (states Err / NoCLen / Fin, where a
   further call only reports a bug) and for objects returned with an error verdict (no invariant is re-established after
-  errors, as in SafeHdrLine); the generalisation of the pipelining corollary to a list of messages; ParseHeaders from a
+  errors, as in SafeHdrLine); that in a pipeline the result for message `i` equals the result for that message in a
+  buffer of its own (needs L1 and flags under which the body is not "the rest of the buffer"); ParseHeaders from a
   suspended pair is covered through `HlsAll`, whose re-establishment after MoreBytes is proved at the message level only.
 -/
 import Sipsp.Proofs.ShiftLists
@@ -2678,3 +2679,40 @@ theorem pipeline_second_message_ok (b1 b2 : Buf) (flags : Nat) (m0 : PSIPMsg) (l
   have := parseSIPMsg_shift_ok b1 b2 0 _ flags hfit (MsgAll_init b2 0 (Nat.zero_le _) m0 len kh kc hdrs cts) h2
   rw [shMsg_init] at this
   exact this
+
+namespace Sipsp
+
+/-- the buffer holding the messages `l` one after the other -/
+def smCat (l : List Buf) : Buf := l.foldl (· ++ ·) #[]
+
+theorem smCat_acc (acc : Buf) (l : List Buf) : l.foldl (· ++ ·) acc = acc ++ smCat l := by
+  unfold smCat
+  induction l generalizing acc with
+  | nil => simp
+  | cons x xs ih =>
+    simp only [List.foldl_cons]
+    rw [ih (acc ++ x), ih (#[] ++ x)]
+    simp [Array.append_assoc]
+
+theorem smCat_append (l1 l2 : List Buf) : smCat (l1 ++ l2) = smCat l1 ++ smCat l2 := by
+  show (l1 ++ l2).foldl (· ++ ·) #[] = _
+  rw [List.foldl_append, smCat_acc]
+  rfl
+
+end Sipsp
+
+open Sipsp in
+/-- **any message of a pipeline**: in the buffer that holds the messages `l` one after the other, parsing at the
+    offset where message `i` starts (from an Init object) gives the result of parsing the rest of the pipeline
+    (messages `i, i+1, …` in a buffer of their own, at offset 0) moved by the total size of the messages before it -/
+theorem pipeline_nth_message (l : List Buf) (i : Nat) (flags : Nat) (m0 : PSIPMsg) (len kh kc : Nat)
+    (hdrs cts : Option Unit) (hfit : (smCat l).size ≤ 65535) :
+    smResM (smCat (l.take i)).size
+      (parseSIPMsg (smCat l) (smCat (l.take i)).size
+        (m0.init len (hdrs.map fun _ => Array.replicate kh {}) (cts.map fun _ => Array.replicate kc {})) flags)
+      (parseSIPMsg (smCat (l.drop i)) 0
+        (m0.init len (hdrs.map fun _ => Array.replicate kh {}) (cts.map fun _ => Array.replicate kc {})) flags) := by
+  have hl : smCat l = smCat (l.take i) ++ smCat (l.drop i) := by rw [← smCat_append, List.take_append_drop]
+  rw [hl] at hfit ⊢
+  rw [Array.size_append] at hfit
+  exact parseSIPMsg_shift_init (smCat (l.take i)) (smCat (l.drop i)) 0 (Nat.zero_le _) m0 len kh kc hdrs cts flags hfit
